@@ -61,3 +61,26 @@ pub fn ref_half_to_f32_bits(h: u16) -> u32 {
     }
     (sign << 31) | ((exp + 127 - 15) << 23) | (man << 13)
 }
+
+/// Straightforward models of core's word-at-a-time byte searches (their pointer-alignment
+/// prologue is nondeterministic under CBMC and makes every later slice length symbolic).
+pub fn naive_memchr(x: u8, text: &[u8]) -> Option<usize> {
+    let mut i = 0;
+    while i < text.len() {
+        if text[i] == x {
+            return Some(i);
+        }
+        i += 1;
+    }
+    None
+}
+pub fn naive_memrchr(x: u8, text: &[u8]) -> Option<usize> {
+    let mut i = text.len();
+    while i > 0 {
+        i -= 1;
+        if text[i] == x {
+            return Some(i);
+        }
+    }
+    None
+}
